@@ -31,19 +31,35 @@ def cases(draw):
     for i in range(n):
         kind = draw(st.sampled_from(["req", "req", "req", "ans", "ans", "dwr", "dwr", "bare"]))        # bare: a header-only message (no AVPs)
         size = draw(st.sampled_from([0, 0, 1, 3, 17, 100, 1000, 5800, 5800, 65400, 65536, 70000, 140000]))
-        msgs.append({"kind": kind, "size": size})
+        m = {"kind": kind, "size": size}
+        # header variety a conformant peer may produce: the T flag (potentially re-transmitted), and a message that repeats the
+        # End-to-End (and possibly the Hop-by-Hop) identifier of an earlier one - it is still a message of the sequence
+        if draw(st.integers(0, 5)) == 0:
+            m["t"] = True
+        if i and draw(st.integers(0, 4)) == 0:
+            m["dup_of"] = draw(st.integers(0, i - 1))
+            m["same_hbh"] = draw(st.booleans())
+        msgs.append(m)
     if not any(m["kind"] != "dwr" for m in msgs):
         msgs[0]["kind"] = "req"
     seg = draw(st.sampled_from(["one", "aligned", "in-header", "header-prefix", "header-prefix", "in-avp-header", "bytewise", "random", "random",
-                                "coalesce-pairs"]))
+                                "coalesce-pairs", "at-read-size"]))
+    chunk = draw(st.sampled_from([4096, 65536, 262144, 262144]))
+    if seg == "at-read-size":
+        # a read returns exactly `chunk` bytes (a plausible size of the transport's read buffer) and nothing more is pending yet
+        need = 2 * chunk + 100
+        big = [{"kind": "req", "size": 140000}] * (need // 140000 + 1) if chunk > 65536 else [{"kind": "req", "size": min(need, 140000)}]
+        at = draw(st.integers(0, len(msgs)))
+        msgs = msgs[:at] + [dict(b) for b in big] + msgs[at:]
     hp = draw(st.sampled_from([1, 2, 3, 3, 19, 20, 21, 30]))
     cuts = draw(st.lists(st.integers(1, 40000), max_size=12)) if seg == "random" else []
     sched = draw(conc.schedules(300))
-    return {"role": draw(st.sampled_from(["client", "server"])), "msgs": msgs, "seg": seg, "cuts": sorted(set(cuts)),
+    return {"chunk": chunk, "role": draw(st.sampled_from(["client", "server"])), "msgs": msgs, "seg": seg, "cuts": sorted(set(cuts)),
             "hp": hp, "consumers": draw(st.sampled_from([1, 1, 1, 2])), "sched": sched, "lines": draw(st.booleans()) if sched else False,
             "gen2": draw(st.sampled_from([None, None, None, "local-close", "peer-fin", "peer-fin-mid-message"])),
             # virtual seconds between the arrival of consecutive segments (cycled); empty = everything is readable at once
-            "gaps": draw(st.sampled_from([[], [], [0.004], [0.02], [0.011], [0.03, 0.004], [0.1, 0.004], [0.011, 0.0, 0.3]])),
+            "gaps": draw(st.sampled_from([[], [], [0.004], [0.02], [0.011], [0.03, 0.004], [0.1, 0.004], [0.011, 0.0, 0.3]] if seg != "at-read-size" else
+                                         [[0.02], [0.05], [0.3, 0.02]])),
             "consumers_first": draw(st.booleans()), "holds": draw(conc.holds(bias="consumer"))}
 
 
@@ -60,6 +76,17 @@ def build_stream(case):
             parts.append(("app", rc.enc_msg(1, 0x40, 316, 16777251, hbh, e2e, [])))
         else:
             parts.append(("dwr", peer_dwr(hbh, e2e)))
+        if m["kind"] != "dwr" and (m.get("t") or m.get("dup_of") is not None):
+            k, p = parts[-1]
+            b = bytearray(p)
+            if m.get("t"):
+                b[4] |= 0x10
+            if m.get("dup_of") is not None:
+                j = m["dup_of"]
+                b[16:20] = (2000 + j).to_bytes(4, "big")
+                if m.get("same_hbh"):
+                    b[12:16] = (1000 + j).to_bytes(4, "big")
+            parts[-1] = (k, bytes(b))
     return parts
 
 
@@ -84,6 +111,8 @@ def segmentation(case, parts):
         cuts = sorted(set([b - len(p) + 7 for b, (_, p) in zip(bounds, parts)] + [b - len(p) + 19 for b, (_, p) in zip(bounds, parts)]))
     elif seg == "in-avp-header":
         cuts = sorted(set(b - len(p) + 20 + 5 for b, (_, p) in zip(bounds, parts)))
+    elif seg == "at-read-size":
+        cuts = list(range(case.get("chunk", 262144), len(data), case.get("chunk", 262144)))
     elif seg == "bytewise":
         cuts = list(range(1, min(len(data), 400)))
     else:
@@ -220,6 +249,10 @@ def _collect(shard, seed, n):
         if case.get("gaps"):
             f.add("segments-arrive-spaced-in-time")
         nt = bool(f & {"message-spans-reads", "messages-share-a-read"}) and "prefix-with-switch" in f
+        if any(m.get("t") for m in case["msgs"]):
+            f.add("t-flag")
+        if any(m.get("dup_of") is not None for m in case["msgs"]):
+            f.add("repeated-end-to-end-id")
         col.record(case, vs, nontrivial=nt, classes=sorted(f))
         col.extra["scheduling_steps"] = col.extra.get("scheduling_steps", 0) + info.get("steps", 0)
         col.extra["context_switches"] = col.extra.get("context_switches", 0) + info.get("switches", 0)
@@ -259,7 +292,7 @@ def main(ctx):
     for path, rec in common.load_replays(PID):
         col.record(rec["case"], run_case(rec["case"]), nontrivial=True, classes=["replay"])
     ctx.required_classes = ["message-spans-reads", "messages-share-a-read", "prefix-with-switch", "preempted-at-source-line",
-                            "role=client", "role=server", "consumers=2", "seg=bytewise", "seg=in-header", "seg=header-prefix"]
+                            "role=client", "role=server", "consumers=2", "seg=bytewise", "seg=in-header", "seg=header-prefix", "seg=at-read-size", "t-flag", "repeated-end-to-end-id"]
     ctx.assumptions = ["controlled world: TCP only, fake socket calibrated on the sandbox kernel; schedules are sampled (random walk / "
                        "PCT-like prefixes, optional source-line preemption) and completed fairly; liveness is judged within 12 virtual seconds",
                        "with two consumers, order is judged per consumer"]
